@@ -298,6 +298,27 @@ Definition pcap_run (zc : bool) (fuel : nat) (s : stream)
   | _ => (r, al, [], true)
   end.
 
+(* read.go:227 SetSnaplen, called by the consumer between reads: `sched` gives, for each successive
+   read call, the value set just before it (None: no call).  The state of the loop is the reader
+   state plus the rest of the schedule. *)
+Definition set_snaplen (rd : rstate) (n : Z) : rstate :=
+  {| r_be := r_be rd; r_factor := r_factor rd; r_snaplen := n; r_lt := r_lt rd; r_pcap := r_pcap rd |}.
+
+Definition read_packet_sn (zc : bool) (st : rstate * list (option Z)) (s : stream)
+  : outcome rpkt * (rstate * list (option Z)) * stream * list Z :=
+  let '(rd, sched) := st in
+  let rd0 := match sched with Some n :: _ => set_snaplen rd n | _ => rd end in
+  let '(r, rd1, s1, al) := read_packet zc rd0 s in
+  (r, (rd1, tl sched), s1, al).
+
+Definition pcap_run_sn (zc : bool) (fuel : nat) (sched : list (option Z)) (s : stream)
+  : outcome rstate * list Z * list (outcome rpkt * list Z) * bool :=
+  let '(r, s1, al) := new_reader s in
+  match r with
+  | Ok rd => let '(l, fin) := drain (read_packet_sn zc) fuel (rd, sched) s1 in (r, al, l, fin)
+  | _ => (r, al, [], true)
+  end.
+
 Definition snoop_run (zc : bool) (fuel : nat) (s : stream)
   : outcome sstate * list Z * list (outcome rpkt * list Z) * bool :=
   let '(r, s1, al) := snoop_new s in
